@@ -7,6 +7,8 @@ from check import run_model_driver
 
 GEN = ['numeric', 'guards']
 LEAN_MODULES = ['XfabVerif.Proofs.C20', 'XfabVerif.Proofs.C20Real']
+# definitions the hand-written model mirrors (see harness/pins.py): a source change breaks the tie
+PINS = ['xfab/checks.py:_checkState', 'xfab/__init__.py:*']
 LEAN_DRIVER_MODULES = ['XfabVerif.Model.Switch', 'XfabVerif.Gen.FloatDispatch']
 RULE = ("random programs of 4-16 operations on the real xfab.CHECKS object: assignments of True/False (valid) and of None, 0, 1, 2, -1, 1.0, 0.0, "
         "'True', 'False', '', numpy.True_, numpy.False_ (invalid), interleaved with calls of the 7 guarded APIs of tools and laue and of "
